@@ -4,6 +4,7 @@ import (
 	"encoding/binary"
 	"io"
 	"net"
+	"runtime"
 	"syscall"
 
 	"github.com/spf13/afero"
@@ -117,7 +118,7 @@ func c04Alphabet() []Req {
 func TestC04(t *testing.T) {
 	r := NewReporter(t)
 	defer r.Done()
-	r.Rule("(a) all request sequences of length <= depth over a hostile alphabet (unaligned / huge offsets and limits, sector reads with huge start/count, listing and mutation on virtual paths and non-directories, unknown opcodes) and all sequences of length 3-4 over 12 state-carrying requests, against a world with generated images, redump + key, 3k3y, CD image; (b) on-disk content: every PARAM.SFO header/index field set to each boundary value, every truncation, TITLE_ID lengths 0..40; region tables with hostile counts and borders; key files of every length 0..40 and non-hex; 3k3y area x file lengths; (c) name families, directories with unresolvable links (loop, mutual, through a file, dangling), a cycle through the parent and names that are not valid UTF-8; each followed by a liveness probe; (e) Accept failing with EMFILE/ENFILE, bounded descriptor use for a 300-file image, the real binary with 64 descriptors under 100 simultaneous clients and under a client walking through a 200-file image; (d) the same artefacts through make-iso / decrypt; oracle: worker process alive, fresh connection served, no hang, tools exit without a Go panic; distinct by case")
+	r.Rule("(a) all request sequences of length <= depth over a hostile alphabet (unaligned / huge offsets and limits, sector reads with huge start/count, listing and mutation on virtual paths and non-directories, unknown opcodes) and all sequences of length 3-4 over 12 state-carrying requests, against a world with generated images, redump + key, 3k3y, CD image; (b) on-disk content: every PARAM.SFO header/index field set to each boundary value, every truncation, TITLE_ID lengths 0..40; region tables with hostile counts and borders; key files of every length 0..40 and non-hex; 3k3y area x file lengths; (c) name families, directories with unresolvable links (loop, mutual, through a file, dangling), a cycle through the parent and names that are not valid UTF-8; each followed by a liveness probe; (e) Accept failing with EMFILE/ENFILE, bounded descriptor use for a 300-file image, bounded memory for a 768 MiB ordinary read (and 2^31-1 bytes against the real binary with 3 GB of address space), the real binary with 64 descriptors under 100 simultaneous clients and under a client walking through a 200-file image; (d) the same artefacts through make-iso / decrypt; oracle: worker process alive, fresh connection served, no hang, tools exit without a Go panic; distinct by case")
 	w := c04World(t, r)
 	defer w.Cleanup()
 	alpha := c04Alphabet()
@@ -579,6 +580,58 @@ func TestC04(t *testing.T) {
 		}
 		os.RemoveAll(filepath.Join(w.Root, "nm"))
 	}
+	// memory use must not grow with the length a request asks for: an ordinary read of 768 MiB (of a sparse file)
+	// through a 64 KiB send window - when the first bytes arrive, the server must not be holding the whole answer
+	idx++
+	if r.Mine(idx) {
+		big := filepath.Join(w.Root, "sparse768m.bin")
+		f, err := os.Create(big)
+		must(err)
+		must(f.Truncate(768 << 20))
+		must(f.Close())
+		var why string
+		var grown uint64
+		synctest.Test(t, func(t *testing.T) {
+			s := startSrv(SrvOpts{Root: w.Root})
+			c := s.Dial(nil)
+			c.outCap = 64 << 10
+			if resp, _ := s.Exchange(c, mkReq(opOpenFile, "/sparse768m.bin").Encode()); len(resp) != szOpenFile {
+				why = "cannot open the sparse file: " + hexHead(resp)
+				s.Shutdown()
+				return
+			}
+			runtime.GC()
+			var m0, m1 runtime.MemStats
+			runtime.ReadMemStats(&m0)
+			c.Send(rdReq(0, 768<<20).Encode())
+			synctest.Wait()
+			runtime.ReadMemStats(&m1)
+			if m1.HeapAlloc > m0.HeapAlloc {
+				grown = m1.HeapAlloc - m0.HeapAlloc
+			}
+			first := c.Take()
+			if len(first) < 4 || int32(be32(first)) != 768<<20 {
+				why = sprintf("ordinary read of 768 MiB: header %s", hexHead(first))
+			}
+			// the client goes away in the middle of the answer
+			c.Rst()
+			synctest.Wait()
+			s.Shutdown()
+		})
+		os.Remove(big)
+		r.Transition(2)
+		r.Eval(1)
+		r.State("memory use of a 768 MiB ordinary read")
+		r.Nontrivial("memory use of a 768 MiB ordinary read")
+		r.Extra("heap_growth_during_768MiB_read", grown)
+		if why != "" {
+			r.Violation("C04:memory:read-failed", why, nil)
+		} else if grown > 128<<20 {
+			r.Violation("C04:memory:grows-with-request", sprintf("an ordinary read of 768 MiB made the server's heap grow by %d MiB before the first byte was sent (the whole answer is collected in memory): a single request for 2 GiB terminates the process on a host with less memory than that", grown>>20), map[string]any{"heap_growth_bytes": grown})
+		} else {
+			r.Outcome("memory-use-bounded")
+		}
+	}
 	// the real process with 64 descriptors: 100 clients connect at once (more than it has descriptors), then leave -
 	// the process must survive and serve a new client; and a client reading the image of 200 files sector by sector
 	// while another one connects after every step
@@ -662,13 +715,56 @@ func TestC04(t *testing.T) {
 			b.Stop()
 		}
 		os.RemoveAll(filepath.Join(w.Root, "nm"))
+		// the real process with 3 GB of address space: one ordinary read of 2^31-1 bytes of a 5 GiB sparse file
+		big := filepath.Join(w.Root, "sparse5g.bin")
+		if f, err := os.Create(big); err == nil {
+			f.Truncate(5 << 30)
+			f.Close()
+			b, err := startBinLimitedV([]string{"server", "--listen-addr=127.0.0.1:0", "--root=" + w.Root, "--read-timeout=2m"}, cleanEnv(logDir), w.Dir, filepath.Join(logDir, "server-mem.log"), 30*time.Second, 3000000)
+			if err != nil {
+				r.HarnessError("cannot start the real binary with an address-space limit: " + err.Error())
+			} else {
+				if a, err := dialFrom(b.Addr, "", 5*time.Second); err == nil {
+					a.c.SetDeadline(time.Now().Add(120 * time.Second))
+					a.c.Write(mkReq(opOpenFile, "/sparse5g.bin").Encode())
+					hdr := make([]byte, szOpenFile)
+					io.ReadFull(a.c, hdr)
+					a.c.Write(rdReq(0, 1<<31-1).Encode())
+					h4 := make([]byte, 4)
+					io.ReadFull(a.c, h4)
+					io.CopyN(io.Discard, a.c, 64<<20) // take a part of the answer, then leave
+					a.Close()
+				}
+				time.Sleep(300 * time.Millisecond)
+				r.Trace(1)
+				r.State("real binary: 2 GiB ordinary read with 3 GB of address space")
+				alive := false
+				for try := 0; try < 30 && !alive && !b.Exited(); try++ {
+					if p, err := dialFrom(b.Addr, "", 2*time.Second); err == nil {
+						ok, ex, _ := p.statProbe("/", 5*time.Second)
+						p.Close()
+						alive = ok && ex
+					}
+					if !alive {
+						time.Sleep(100 * time.Millisecond)
+					}
+				}
+				if !alive {
+					r.Violation("C04:memory:real-binary-died", sprintf("real server started with 3 GB of address space: after one ordinary read of 2^31-1 bytes it no longer serves (exited=%v): %s", b.Exited(), lastLines(b.Log(), 3)), nil)
+				} else {
+					r.Outcome("huge-ordinary-read-survived")
+				}
+				b.Stop()
+			}
+			os.Remove(big)
+		}
 		os.RemoveAll(logDir)
 	}
 	// (d) the same artefacts through the offline tools
 	if binPath() != "" {
 		c04Tools(r, w, sfos, sfoDesc, &idx)
 	}
-	r.Assume("'all byte streams' is replaced by the bounded hostile alphabet above; random or mutational fuzzing is a different family and is not used; memory exhaustion by legal-but-huge requests is outside a bounded check")
+	r.Assume("'all byte streams' is replaced by the bounded hostile alphabet above; random or mutational fuzzing is a different family and is not used; memory use is checked for one request shape only (a huge ordinary read, in-process and on the real binary under an address-space limit)")
 }
 
 func c04Tools(r *Reporter, w *World, sfos [][]byte, sfoDesc []string, idx *int) {
